@@ -1,0 +1,35 @@
+//go:build verif
+
+package rtpvp9
+
+// Contracts checked by /verif/govc (see /verif/DESIGN.md). Comment-only file.
+
+// C08: the partial frame never exceeds the maximum frame size.
+//@ typeinv Decoder d
+//@   inv[C08] 0 <= d.fragmentsSize && d.fragmentsSize <= vp9.MaxFrameSize
+
+//@ func joinFragments
+//@   opt safety-tag=C08
+//@   requires size >= 0 && size <= 281474976710656
+//@   ensures[C08] len(ret) == size
+//@   modifies fresh
+//@   loop 1
+//@     invariant _i >= 0 && 0 <= n && n <= size && len(ret) == size && fresh(ret)
+
+//@ func (d *Decoder) resetFragments
+//@   opt typeinv=off
+//@   ensures[C08] d.fragmentsSize == 0 && len(d.fragments) == 0
+//@   modifies d.fragments, d.fragmentsSize
+
+// C07: a start packet (B bit) determines the state by itself; a continuation is accepted only
+// with the expected sequence number while a frame is in progress; every error other than the
+// two "no start seen yet" answers, and every completed frame, leaves no partial frame.
+//@ func (d *Decoder) Decode
+//@   opt safety-tag=C08
+//@   requires pkt != nil && len(pkt.Payload) <= 65535
+//@   ensures[C07] err == nil ==> d.fragmentsSize == 0
+//@   ensures[C07] err != nil && err != ErrMorePacketsNeeded && old(d.fragmentsSize) != 0 ==> d.fragmentsSize == 0
+//@   ensures[C07] d.fragmentsSize != 0 && !vpkt.B ==> old(d.fragmentsSize) != 0 && pkt.SequenceNumber == old(d.fragmentNextSeqNum) && d.fragmentNextSeqNum == old(d.fragmentNextSeqNum) + 1
+//@   ensures[C07] d.fragmentsSize != 0 && vpkt.B ==> d.fragmentNextSeqNum == pkt.SequenceNumber + 1 && d.fragmentsSize == len(vpkt.Payload)
+//@   ensures[C08] err == nil ==> len(ret) >= 1 && len(ret) <= vp9.MaxFrameSize
+//@   modifies *
